@@ -195,6 +195,23 @@ pub fn c03(ctx: &Ctx, acc: &mut Acc) {
                 acc.count("eta_variants_ill_typed_by_construction_error");
             }
         }
+        // variant with shadowing binders (the translation never shadows; hand-built Core may)
+        let mut rng2 = crate::rng::Rng::new(seed ^ 0x5AD0);
+        let (shadowed, ns) = crate::core_shadow::introduce(&core, &mut rng2);
+        if ns > 0 {
+            if ty_core::check_prog(&shadowed).is_ok() {
+                acc.add("shadowing_binders_introduced", ns);
+                for args in case.args.iter().take(1) {
+                    acc.evaluations += 1;
+                    acc.count("shadowing_variants_judged");
+                    if c03_judge(acc, &shadowed, args, &case.src, &format!("gen_fun seed={seed} Core variant with {ns} shadowing binders (rng {:#x})", seed ^ 0x5AD0)) {
+                        any = true;
+                    }
+                }
+            } else {
+                acc.count("shadowing_variants_ill_typed_by_construction_error");
+            }
+        }
         if any {
             acc.nontrivial(case_hash(&case));
             if acc.samples.len() < 3 {
